@@ -59,7 +59,7 @@ def fuse_two_dags(dag1, dag2, phase_correspondences=None,
         should_disambiguate_name=None):
     from dagrt.language import DAGCode
     new_phases = {}
-    for phase_name in frozenset(dag1.phases) | frozenset(dag2.phases):
+    for phase_name in sorted(frozenset(dag1.phases) | frozenset(dag2.phases)):
         phase1 = dag1.phases.get(phase_name)
         phase2 = dag2.phases.get(phase_name)
 
